@@ -1,5 +1,6 @@
 import GufoSnmp.Lemmas.AuthLemmas
 import GufoSnmp.Lemmas.PrivLemmas
+import GufoSnmp.Model.User
 /-!
 # C12 — USM keys are derived exactly as RFC 3414 A.2 prescribes
 
@@ -217,5 +218,65 @@ theorem exposed (D : Digests) (hD : D.WF) (pw ku engineId : Bytes) (hp : pw ≠ 
     unfold getLocalizedKey
     rw [if_neg (by decide), n1]
     simp only [AuthKey.keySize, AuthAlg.keySize, md5KeySize, ne_eq, hl, not_false_eq_true, if_true]
+
+/-! ## the Python key classes (`user.py`) in front of the sockets -/
+
+theorem padded_length (key : Bytes) (n : Nat) : (Py.padded key n).length = n := by
+  unfold Py.padded
+  split
+  · assumption
+  · split
+    · simp [List.length_take]; omega
+    · simp; omega
+
+/-- **C12.user_keys_sized**: a master or localized authentication key built through `Md5Key` / `Sha1Key`
+reaches the socket with exactly the digest's key size — so the Rust layer never sees a wrong-size
+master / localized key from the public API (the padding is the Python layer's doing) -/
+theorem user_keys_sized (alg : Nat) (key : Bytes) (kt : Py.KeyType) (h : kt.aligned = true) :
+    (Py.mkAuthKey alg key kt).key.length = Py.authKeyLength alg := by
+  simp only [Py.mkAuthKey, h, if_true]
+  exact padded_length _ _
+
+/-- a key of the right size is handed over unchanged -/
+theorem user_key_kept (alg : Nat) (key : Bytes) (kt : Py.KeyType) (h : key.length = Py.authKeyLength alg) :
+    (Py.mkAuthKey alg key kt).key = key := by
+  simp only [Py.mkAuthKey, Py.padded, h, if_true]
+  split <;> rfl
+
+/-- **C12.user_codes**: the algorithm code handed to the socket carries the digest in its low six bits
+and the key type in the two high bits, which is what `AuthKey::new` / `as_key_type` take apart -/
+theorem user_codes (name : Bytes) (a : Py.Key) (p : Option Py.Key) (u : Py.User) (ha : a.alg < 64)
+    (h : Py.mkUser name (some a) p = some u) :
+    u.authAlg % 64 = a.alg ∧ u.authAlg / 64 * 64 = a.kt.mask ∧ u.authKey = a.key ∧
+    (∀ pk, p = some pk → pk.alg < 64 → u.privAlg % 64 = pk.alg ∧ u.privAlg / 64 * 64 = pk.kt.mask ∧
+      (pk.kt.aligned = true → u.privKey.length = Py.authKeyLength a.alg) ∧
+      (pk.kt.aligned = false → u.privKey = pk.key)) := by
+  cases p with
+  | none =>
+    simp only [Py.mkUser, Option.some.injEq] at h
+    subst h
+    refine ⟨?_, ?_, rfl, fun pk hp => by cases hp⟩ <;>
+      (simp only [Py.User.authAlg]; cases a.kt <;> simp only [Py.KeyType.mask] <;> omega)
+  | some pk =>
+    simp only [Py.mkUser, Option.some.injEq] at h
+    subst h
+    refine ⟨?_, ?_, rfl, ?_⟩
+    · simp only [Py.User.authAlg]; cases a.kt <;> simp only [Py.KeyType.mask] <;> omega
+    · simp only [Py.User.authAlg]; cases a.kt <;> simp only [Py.KeyType.mask] <;> omega
+    · intro pk' hp hlt
+      cases hp
+      refine ⟨?_, ?_, ?_, ?_⟩
+      · simp only [Py.User.privAlg]
+        split <;> (cases pk.kt <;> simp only [Py.KeyType.mask] <;> omega)
+      · simp only [Py.User.privAlg]
+        split <;> (cases pk.kt <;> simp only [Py.KeyType.mask] <;> omega)
+      · intro hal
+        simp only [Py.User.privKey, hal, if_true]
+        exact padded_length _ _
+      · intro hal
+        simp only [Py.User.privKey, hal, Bool.false_eq_true, if_false]
+
+/-- a privacy key without an authentication key is refused (`ValueError`) -/
+theorem user_priv_needs_auth (name : Bytes) (p : Py.Key) : Py.mkUser name none (some p) = none := rfl
 
 end GufoSnmp.C12
